@@ -12,7 +12,7 @@
     code and in the model; an implementation that dies anywhere is a
     violation. *)
 From Coq Require Import List ZArith NArith Bool String.
-From C33 Require Import Lib.Harness C33.Model.
+From C33 Require Import Lib.Harness C33.Model C33.Streams.
 Import ListNotations.
 Open Scope Z_scope.
 
@@ -29,9 +29,34 @@ Record obs := mkObs {
     [CaseLive]: the real loop goroutines in a child process - the index of the
     event during which the process died (if it did) and the accumulated
     observations of the whole history *)
+(** stream paths (Streams.v), all run in child processes against real libp2p hosts:
+    [CaseDl]: one download job against scripted serving peers - acknowledgement,
+      survival, blocks handed to the blockchain module (height, peer, id) and
+      the number of requests every peer saw per height;
+    [CaseSrv]: requests sent to the node's two download stream handlers, the
+      blockchain module being a stub with blocks 0..tip (mode 1: answers with an
+      empty list, 2: with an error) - per request what the stub was asked and
+      what the requester read (blocks / end of stream / reset);
+    [CaseSrvLive]: the same handlers in front of the REAL blockchain module -
+      index of the request the process did not survive;
+    [CaseVer]: requests to the two version handlers - what the requester read,
+      the reply's AddrFrom, address-book and blacklist effects; [pubs]/[maddrs]:
+      the strings utils.IsPublicIP resp. multiaddr.NewMultiaddr accept;
+    [CaseLim]: replies to the node's peer-info queries, VerLimit = lim -
+      0 = PeerInfoManager.Refresh, 1 = blacklisted, 2 = nothing *)
+Inductive sreq := SOld (r : rd (option (Z * Z))) | SNew (r : rd (Z * Z)).
+Inductive sobs := SBlocks (hs : list Z) | SEof | SReset.
+Inductive vreq := VNew (r : rd vmsg) | VOld (r : rd (option vmsg)).
+Record vobs := mkVobs { vo_class : Z; vo_from : gostring; vo_eff : list peff }.
+
 Inductive case :=
 | Case (c : config) (p0 : pool) (steps : list (event * obs))
-| CaseLive (c : config) (p0 : pool) (evs : list event) (crash : option nat) (final : obs).
+| CaseLive (c : config) (p0 : pool) (evs : list event) (crash : option nat) (final : obs)
+| CaseDl (j : job) (ack : Z) (alive : bool) (del : list delivery) (reqs : list (N * Z * nat))
+| CaseSrv (tip mode : Z) (steps : list (sreq * (option (Z * Z) * sobs))) (alive : bool)
+| CaseSrvLive (tip : Z) (reqs : list sreq) (crash : option nat)
+| CaseVer (channel : Z) (pubs maddrs : list gostring) (steps : list (vreq * vobs)) (alive : bool)
+| CaseLim (lim : gostring) (steps : list (rd gostring * Z)) (alive : bool).
 
 Definition slot_eqb := option_eqb N.eqb.
 
@@ -98,10 +123,161 @@ Definition check_live (c : config) (p0 : pool) (evs : list event) (crash : optio
   | LCrash i ev why, Some j => (Nat.eqb i j, false, 0%N)
   end.
 
+(** * stream paths *)
+
+(** ** download job.  spec oracle: the process survived, and every block handed to the
+    blockchain module was sent by that peer for that height as the first item of a reply *)
+Definition delivery_eqb (a b : delivery) : bool :=
+  match a, b with
+  | (h, p, i), (h', p', i') => (h =? h') && N.eqb p p' && N.eqb i i'
+  end.
+Definition same_dels (a b : list delivery) : bool :=
+  Nat.eqb (List.length a) (List.length b)
+  && forallb (fun d => existsb (delivery_eqb d) b) a && forallb (fun d => existsb (delivery_eqb d) a) b.
+
+(** requests the serving peers saw: a peer without the protocol (first scripted
+    answer [WNoStream]) is asked by the node but never sees a request *)
+Definition reachable (s : script) (h : Z) (p : N) : bool :=
+  match script_get s p h with WNoStream :: _ => false | _ => true end.
+Definition req_count (r : jres) (p : N) (h : Z) : nat :=
+  fold_left (fun acc x => if fst x =? h then (acc + count_in p (snd x))%nat else acc) (jr_asked r) 0%nat.
+Definition total_asked (s : script) (r : jres) : nat :=
+  fold_left (fun acc x => (acc + List.length (filter (reachable s (fst x)) (snd x)))%nat) (jr_asked r) 0%nat.
+Definition reqs_agree (s : script) (r : jres) (reqs : list (N * Z * nat)) : bool :=
+  forallb (fun q => match q with (p, h, c) => reachable s h p && Nat.eqb (req_count r p h) c end) reqs
+  && Nat.eqb (total_asked s r) (fold_left (fun a q => (a + snd q)%nat) reqs 0%nat).
+
+Definition sent_wire (h : Z) (id : N) (w : wire) : bool :=
+  match w with
+  | WMsg (Some (WIblock b :: _)) => (bk_h b =? h) && N.eqb (bk_id b) id
+  | _ => false
+  end.
+Definition sent_by_b (s : script) (d : delivery) : bool :=
+  match d with (h, p, id) => existsb (sent_wire h id) (script_get s p h) end.
+
+Definition check_dl (j : job) (ack : Z) (alive : bool) (del : list delivery) (reqs : list (N * Z * nat)) : verdict :=
+  let r := run_job j in
+  (Bool.eqb alive (negb (jr_dead r)) && (ack =? Z.of_N (jr_ack r)) && same_dels del (jr_del r) && reqs_agree (j_script j) r reqs,
+   alive && forallb (sent_by_b (j_script j)) del, 0%N).
+
+(** ** serving side.  spec oracle: the process survived and every range handed to the
+    blockchain module spans at most the handler's own limit (0 <= End-Start <= 256 as
+    integers).  Known finding 4: the range test is done in int64 and wraps. *)
+Definition stub_chain (tip mode : Z) (s e : Z) : out chain_ans :=
+  if mode =? 1 then Done (CBlocks [])
+  else if mode =? 2 then Done CErr
+  else if (s <? 0) || (tip <? s) || (e <? s) || (1000 <=? e - s) then Done CErr
+  else Done (CBlocks (zseq s (Z.to_nat ((if tip <? e then tip else e) - s + 1)))).
+
+Definition serve (chain : Z -> Z -> out chain_ans) (q : sreq) : sres :=
+  match q with SOld r => serve_old chain r | SNew r => serve_new chain r end.
+
+
+Definition fwd_eqb (a b : option (Z * Z)) : bool :=
+  match a, b with
+  | None, None => true
+  | Some (s, e), Some (s', e') => (s =? s') && (e =? e')
+  | _, _ => false
+  end.
+Definition sobs_agree (o : out (list Z)) (b : sobs) : bool :=
+  match o, b with
+  | Done hs, SBlocks hs' => list_eqb Z.eqb hs hs'
+  | Dropped _, SEof => true
+  | Panicked _, SReset => true
+  | _, _ => false
+  end.
+
+Fixpoint check_srv_steps (chain : Z -> Z -> out chain_ans) (l : list (sreq * (option (Z * Z) * sobs))) : verdict :=
+  match l with
+  | [] => ok_verdict
+  | (q, (fwd, so)) :: tl =>
+      let r := serve chain q in
+      let m := fwd_eqb (fst r) fwd && sobs_agree (snd r) so in
+      let s := match fwd with Some (a, b) => span_ok a b | None => true end in
+      match check_srv_steps chain tl with
+      | (m', s', k') =>
+          if s then (m && m', s', k')
+          else (m && m', false,
+                match fwd with Some (a, b) => if m && wraps a b then 4%N else 0%N | None => 0%N end)
+      end
+  end.
+
+Definition check_srv (tip mode : Z) (steps : list (sreq * (option (Z * Z) * sobs))) (alive : bool) : verdict :=
+  match check_srv_steps (stub_chain tip mode) steps with
+  | (m, s, k) => if alive then (m, s, k) else (false, false, 0%N)
+  end.
+
+(** real blockchain module: 2^31 pointers is more than the child (RLIMIT_AS 16 GiB) gets *)
+Definition cap_live : Z := 2147483648.
+
+Fixpoint first_death (chain : Z -> Z -> out chain_ans) (reqs : list sreq) (i : nat) : option (nat * sreq) :=
+  match reqs with
+  | [] => None
+  | q :: tl => if serve_survives (serve chain q) then first_death chain tl (S i) else Some (i, q)
+  end.
+
+Definition is_wrap_req (q : sreq) : bool :=
+  match q with
+  | SOld (RdMsg (Some (s, e))) | SNew (RdMsg (s, e)) => negb (range_bad s e) && wraps s e
+  | _ => false
+  end.
+
+Definition check_srv_live (tip : Z) (reqs : list sreq) (crash : option nat) : verdict :=
+  match first_death (chain_get tip cap_live) reqs 0, crash with
+  | None, None => ok_verdict
+  | None, Some _ => (false, false, 0%N)
+  | Some _, None => (false, true, 0%N)
+  | Some (i, q), Some j => (Nat.eqb i j, false, if Nat.eqb i j && is_wrap_req q then 4%N else 0%N)
+  end.
+
+(** ** version handlers.  spec oracle: the process survived *)
+Definition peff_eqb (a b : peff) : bool :=
+  match a, b with
+  | EBlack, EBlack => true
+  | EAddRemote x, EAddRemote y => bytes_eqb x y
+  | EAddSelf x, EAddSelf y => option_eqb bytes_eqb x y
+  | _, _ => false
+  end.
+
+Definition vclass (o : out gostring) : Z * gostring :=
+  match o with
+  | Done a => (0, a)
+  | Dropped w => if N.eqb w D_BLACK then (3, []) else (1, [])
+  | Panicked _ => (2, [])
+  | Died => (9, [])
+  end.
+
+Fixpoint check_ver_steps (e : penv) (ext : gostring) (l : list (vreq * vobs)) : bool :=
+  match l with
+  | [] => true
+  | (q, o) :: tl =>
+      match (match q with VNew r => handle_version e ext r | VOld r => handle_version_old e ext r end) with
+      | (ext', eff, out) =>
+          (fst (vclass out) =? vo_class o) && bytes_eqb (snd (vclass out)) (vo_from o)
+          && list_eqb peff_eqb eff (vo_eff o) && check_ver_steps e ext' tl
+      end
+  end.
+
+Definition check_ver (channel : Z) (pubs maddrs : list gostring) (steps : list (vreq * vobs)) (alive : bool) : verdict :=
+  let e := mkPenv channel (fun s => existsb (bytes_eqb s) pubs) (fun s => existsb (bytes_eqb s) maddrs) in
+  (alive && check_ver_steps e [] steps, alive, 0%N).
+
+(** ** version limit.  spec oracle: the process survived *)
+Definition lim_class (o : out bool) : Z :=
+  match o with Done true => 0 | Done false => 1 | Dropped _ => 2 | _ => 9 end.
+
+Definition check_lim (lim : gostring) (steps : list (rd gostring * Z)) (alive : bool) : verdict :=
+  (alive && forallb (fun x => lim_class (refresh_one lim (fst x)) =? snd x) steps, alive, 0%N).
+
 Definition check_case (cs : case) : verdict :=
   match cs with
   | Case c p0 steps => check_steps c init p0 steps
   | CaseLive c p0 evs crash final => check_live c p0 evs crash final
+  | CaseDl j ack alive del reqs => check_dl j ack alive del reqs
+  | CaseSrv tip mode steps alive => check_srv tip mode steps alive
+  | CaseSrvLive tip reqs crash => check_srv_live tip reqs crash
+  | CaseVer ch pubs maddrs steps alive => check_ver ch pubs maddrs steps alive
+  | CaseLim lim steps alive => check_lim lim steps alive
   end.
 
 (** * compact wire format *)
@@ -126,3 +302,17 @@ Definition R (t : Z) (from pub : N) (lb : ltblock) : event := ERecvLt (t * 10000
 Definition K (t : Z) : event := ETick (t * 1000000000 + 500000000).
 Definition O (alive : bool) (posts msgs : list eff) (pend reqs : Z) : obs :=
   mkObs alive posts msgs pend reqs.
+
+(** stream cases *)
+Definition T (p adv : Z) : task := mkTask (Z.to_N p) adv.
+Definition SC (p h : Z) (ws : list wire) : N * Z * list wire := (Z.to_N p, h, ws).
+Definition we : wire := WErr.
+Definition wn : wire := WNoStream.
+Definition wb : wire := WBadHdr.
+Definition w0 : wire := WMsg None.
+Definition wm (items : list witem) : wire := WMsg (Some items).
+Definition ib (h id : Z) : witem := WIblock (mkB h (Z.to_N id)).
+Definition D (h p id : Z) : delivery := (h, Z.to_N p, Z.to_N id).
+Definition Q (p h c : Z) : N * Z * nat := (Z.to_N p, h, Z.to_nat c).
+Definition V (ver : Z) (from recv : gostring) : vmsg := mkV ver from recv.
+Definition VO (class : Z) (from : gostring) (eff : list peff) : vobs := mkVobs class from eff.
